@@ -5,7 +5,7 @@ use crate::c11::{flip_once, umad_once, FlipKind, Gene, GenomeKind, UmadKind};
 use ec_core::distributions::collection::ConvertToCollectionGenerator;
 use ec_core::distributions::conversion::IntoDistribution;
 use ec_linear::genome::bitstring::{Bitstring, BoolGenerator};
-use mcx::{explore, lcm, Alphabet, ChoiceRng, Env, Law, Ratio, Run};
+use mcx::{explore, explore_bounded, lcm, Alphabet, ChoiceRng, Env, Law, Ratio, Run};
 use push::genome::plushy::{ConvertToGeneGenerator, GeneGenerator, PushGene};
 use push::instruction::PushInstruction;
 use rand::distr::Distribution;
@@ -29,6 +29,11 @@ pub enum Case {
     Bits { which: u8, p: R2, l: usize },
     /// GeneGenerator: which = 0 explicit probability, 1 with_uniform_close_probability, 2 into_gene_generator, 3 to_gene_generator
     GeneGen { which: u8, p: R2, n: usize },
+    /// long genomes (around the 64- and 128-gene marks): every stream with at most `dev` non-default
+    /// words over the grid plus the extreme words; every position must be seen with both outcomes
+    /// (0..=2: WithRate 1/2 on Vec / Vector / Bitstring, 3: WithOneOverLength on Vec, 4..=7: the four
+    /// bit generators with p = 1/2, 8..=11: UniformXo on [Vec;2], (Vec,Vec), [Bitstring;2], (Bitstring,Bitstring))
+    Long { which: u8, l: usize, dev: usize },
 }
 
 fn product_mask_law(l: usize, p: Ratio) -> Law<Vec<bool>> {
@@ -172,8 +177,66 @@ fn compare<K: Ord + Clone + std::fmt::Debug>(name: &str, label: &str, got: &Law<
     (st.leaves, st.choice_points, None, got.mass.len())
 }
 
+fn long_case(which: u8, l: usize, dev: usize) -> Out {
+    let names = ["with_rate", "with_rate", "with_rate", "with_one_over_length", "bitstring_random", "bitstring_random_with_probability", "bool_generator_into_collection", "bool_generator_to_collection", "uniform_xo", "uniform_xo", "uniform_xo", "uniform_xo"];
+    let name = names[which as usize];
+    let label = format!("{name} (variant {which}) on a genome of length {l}");
+    let alpha = if which == 3 { Alphabet::Ext(l as u32) } else { Alphabet::Ext(2) };
+    let mut seen = vec![[false; 2]; l];
+    let mut bad: Option<String> = None;
+    let st = explore_bounded(
+        |env| -> Result<Vec<bool>, String> {
+            match which {
+                0 => flip_once(FlipKind::VecTag, false, 0.5, l, env, alpha).and_then(|x| x),
+                1 => flip_once(FlipKind::VectorTag, false, 0.5, l, env, alpha).and_then(|x| x),
+                2 => flip_once(FlipKind::Bits, false, 0.5, l, env, alpha).and_then(|x| x),
+                3 => flip_once(FlipKind::VecTag, true, 0.0, l, env, alpha).and_then(|x| x),
+                4..=7 => bits_once(which - 4, (1, 2), l, env, alpha),
+                _ => {
+                    use crate::c10::{recombine, Flavour, XoObs};
+                    let f = [Flavour::VecArr, Flavour::VecTuple, Flavour::BitArr, Flavour::BitTuple][which as usize - 8];
+                    match recombine(false, f, l, l, env, alpha) {
+                        XoObs::Child(c) => Ok(c.iter().map(|p| *p == 2).collect()),
+                        other => Err(format!("{other:?}")),
+                    }
+                }
+            }
+        },
+        |_, o| match o {
+            Ok(bits) => {
+                if bits.len() != l {
+                    bad = Some(format!("output of length {}", bits.len()));
+                }
+                for (i, b) in bits.iter().enumerate().take(l) {
+                    seen[i][*b as usize] = true;
+                }
+            }
+            Err(e) => bad = Some(e),
+        },
+        dev,
+        5_000_000,
+    );
+    if st.capped {
+        return (st.leaves, st.choice_points, Some(("machinery/cap".into(), format!("{label}: capped"))), 0);
+    }
+    if let Some(b) = bad {
+        return (st.leaves, st.choice_points, Some((format!("{name}/long-result"), format!("{label}: {b}"))), 0);
+    }
+    let stuck: Vec<(usize, bool)> = (0..l).flat_map(|i| [(i, false), (i, true)]).filter(|(i, v)| !seen[*i][*v as usize]).collect();
+    if !stuck.is_empty() {
+        return (
+            st.leaves,
+            st.choice_points,
+            Some((format!("{name}/long-support"), format!("{label}: over every stream with at most {dev} non-default words, {} (position, outcome) pairs never occur, e.g. {:?} -- these genes are not decided by the random stream with the configured probability", stuck.len(), &stuck[..stuck.len().min(4)]))),
+            1,
+        );
+    }
+    (st.leaves, st.choice_points, None, 2)
+}
+
 pub fn run_case(c: &Case) -> Out {
     match c {
+        Case::Long { which, l, dev } => long_case(*which, *l, *dev),
         Case::Flip { kind, ool, rate, l } => {
             let p = if *ool { Ratio::new(1, (*l).max(1) as u128) } else { rr(*rate) };
             let m = if *ool { (*l).max(1) as u32 } else { grid_for(&[*rate], &[]) };
@@ -345,6 +408,11 @@ pub fn cases(quick: bool) -> Vec<Case> {
             }
         }
     }
+    for l in if quick { vec![63usize, 64, 65, 129] } else { vec![31, 32, 33, 63, 64, 65, 66, 100, 127, 128, 129, 130, 257] } {
+        for which in 0..12u8 {
+            v.push(Case::Long { which, l, dev: if quick || which == 3 { 1 } else { 2 } });
+        }
+    }
     for n in 1..=5usize {
         for which in 1..=3u8 {
             v.push(Case::GeneGen { which, p: (0, 1), n });
@@ -383,7 +451,7 @@ pub fn run(run: &mut Run) {
     run.states = cs.len() as u64;
     run.traces_validated = run.evaluations;
     run.distinct_nontrivial = nontrivial;
-    run.rule = "lattice rates {0,1/4,1/3,1/2,3/4,1}: WithRate / WithOneOverLength flip-mask law = product law; Umad output-genome law = per-gene law (keep 1-d, insert a(1-d), uniform generator) incl. expected size l(1-d)(1+a) and the empty-parent rate; Bitstring::random / random_with_probability / BoolGenerator product laws; GeneGenerator close probability (explicit and 1/(n+1)) and uniform instruction choice; all grid word sequences, laws compared as exact rationals. (UniformXo's 1/2 law is decided in C10.) non-trivial = scenarios whose law has more than one outcome".into();
+    run.rule = "lattice rates {0,1/4,1/3,1/2,3/4,1}: WithRate / WithOneOverLength flip-mask law = product law; Umad output-genome law = per-gene law (keep 1-d, insert a(1-d), uniform generator) incl. expected size l(1-d)(1+a) and the empty-parent rate; Bitstring::random / random_with_probability / BoolGenerator product laws; GeneGenerator close probability (explicit and 1/(n+1)) and uniform instruction choice; all grid word sequences, laws compared as exact rationals. (UniformXo's exact 1/2 law on short genomes is decided in C10.) Long genomes (63..129, thorough up to 257): flips, bit generators and UniformXo under every stream with at most 1 (2) non-default words over the grid plus the extreme words: every gene must be seen with both outcomes. non-trivial = scenarios whose law has more than one outcome".into();
     run.bound("umad_parent_lengths", json!("0, 1, 2 (m=4 lattice); thirds on length 1"));
     run.bound("flip_lengths", json!(if run.quick() { "0..2 (1/l: 1..3)" } else { "0..3 (1/l: 1..4)" }));
     run.bound("instruction_set_sizes", json!("1..5"));
